@@ -3,7 +3,7 @@ from __future__ import annotations
 import hashlib, inspect, json, multiprocessing as mp, os, sys, time, traceback, textwrap
 
 ROOT = os.path.dirname(os.path.dirname(os.path.abspath(__file__)))
-REPO = "/repo"
+REPO = os.environ.get("HV_REPO", "/repo")
 SRC = os.path.join(REPO, "src", "htstabilizer")
 
 PROVED, REFUTED, UNKNOWN = "proved", "refuted", "unknown"
